@@ -37,14 +37,14 @@ import (
 // shortening, union style, message nesting ...).
 var Variants = map[string][]string{"go": {"a", "b", "c"}, "path": {"a", "b", "c", "d"}, "proto": {"a", "b", "c"}}
 
-func generate(tool, variant string, compress bool, files, inc []string) (string, error) {
+func generate(tool, variant string, compress bool, files, inc []string) (func() string, error) {
 	switch variant {
 	case "b":
 		compress = !compress
 	}
 	cb, err := genutil.TranslateToCompressBehaviour(compress, false, false)
 	if err != nil {
-		return "", err
+		return nil, err
 	}
 	switch tool {
 	case "go":
@@ -78,15 +78,17 @@ func generate(tool, variant string, compress bool, files, inc []string) (string,
 		cg := gogen.New("hgen", ygen.IROptions{TransformationOptions: tr, AppendEnumSuffixForSimpleUnionEnums: g.AppendEnumSuffixForSimpleUnionEnums}, g)
 		out, errs := cg.Generate(files, inc)
 		if errs != nil {
-			return "", fmt.Errorf("%v", errs)
+			return nil, fmt.Errorf("%v", errs)
 		}
-		var b strings.Builder
-		b.WriteString(out.CommonHeader + out.OneOffHeader)
-		for _, s := range out.Structs {
-			b.WriteString(s.String())
-		}
-		b.WriteString(strings.Join(out.Enums, "\n") + out.EnumMap + out.EnumTypeMap + out.JSONSchemaCode + string(out.RawJSONSchema))
-		return b.String(), nil
+		return func() string {
+			var b strings.Builder
+			b.WriteString(out.CommonHeader + out.OneOffHeader)
+			for _, s := range out.Structs {
+				b.WriteString(s.String())
+			}
+			b.WriteString(strings.Join(out.Enums, "\n") + out.EnumMap + out.EnumTypeMap + out.JSONSchemaCode + string(out.RawJSONSchema))
+			return b.String()
+		}, nil
 	case "path":
 		pcg := &ypathgen.GenConfig{PackageName: "vout", GoImports: ypathgen.GoImports{SchemaStructPkgPath: "", YgotImportPath: genutil.GoDefaultYgotImportPath},
 			FakeRootName: "device", PathStructSuffix: "Path", GeneratingBinary: "hgen", GenerateWildcardPaths: true, ShortenEnumLeafNames: true,
@@ -117,18 +119,20 @@ func generate(tool, variant string, compress bool, files, inc []string) (string,
 		}
 		out, _, errs := pcg.GeneratePathCode(files, inc)
 		if errs != nil {
-			return "", fmt.Errorf("%v", errs)
+			return nil, fmt.Errorf("%v", errs)
 		}
-		var names []string
-		for n := range out {
-			names = append(names, n)
-		}
-		sort.Strings(names)
-		var b strings.Builder
-		for _, n := range names {
-			b.WriteString("== " + n + "\n" + out[n].String())
-		}
-		return b.String(), nil
+		return func() string {
+			var names []string
+			for n := range out {
+				names = append(names, n)
+			}
+			sort.Strings(names)
+			var b strings.Builder
+			for _, n := range names {
+				b.WriteString("== " + n + "\n" + out[n].String())
+			}
+			return b.String()
+		}, nil
 	case "proto":
 		tr := ygen.TransformationOpts{CompressBehaviour: cb, GenerateFakeRoot: true, FakeRootName: "device"}
 		po := protogen.ProtoOpts{PackageName: "vout", BaseImportPath: "example.com/verif", YwrapperPath: protogen.DefaultYwrapperPath, YextPath: protogen.DefaultYextPath,
@@ -148,21 +152,23 @@ func generate(tool, variant string, compress bool, files, inc []string) (string,
 		cg := protogen.New("hgen", ygen.IROptions{TransformationOptions: tr, NestedDirectories: po.NestedMessages, AbsoluteMapPaths: true, AppendEnumSuffixForSimpleUnionEnums: true}, po)
 		out, errs := cg.Generate(files, inc)
 		if errs != nil {
-			return "", fmt.Errorf("%v", errs)
+			return nil, fmt.Errorf("%v", errs)
 		}
-		var names []string
-		for n := range out.Packages {
-			names = append(names, n)
-		}
-		sort.Strings(names)
-		var b strings.Builder
-		for _, n := range names {
-			p := out.Packages[n]
-			b.WriteString("== " + strings.Join(p.FilePath, "/") + "\n" + p.Header + "\n" + strings.Join(p.Enums, "\n") + "\n" + strings.Join(p.Messages, "\n"))
-		}
-		return b.String(), nil
+		return func() string {
+			var names []string
+			for n := range out.Packages {
+				names = append(names, n)
+			}
+			sort.Strings(names)
+			var b strings.Builder
+			for _, n := range names {
+				p := out.Packages[n]
+				b.WriteString("== " + strings.Join(p.FilePath, "/") + "\n" + p.Header + "\n" + strings.Join(p.Enums, "\n") + "\n" + strings.Join(p.Messages, "\n"))
+			}
+			return b.String()
+		}, nil
 	}
-	return "", fmt.Errorf("unknown tool %q", tool)
+	return nil, fmt.Errorf("unknown tool %q", tool)
 }
 
 type genResult struct {
@@ -173,6 +179,9 @@ type genResult struct {
 	Bytes   int    `json:"bytes"`
 	SHA     string `json:"sha,omitempty"`
 	Dev     int    `json:"deviating_sites"`
+	// ChangedLater: the result of this generation, kept by the caller, read differently once
+	// the later generations of the process had run (a result aliasing a buffer that is reused)
+	ChangedLater bool `json:"changed_later,omitempty"`
 }
 
 func main() {
@@ -204,6 +213,7 @@ func main() {
 		fail(err)
 	}
 	var res []genResult
+	var renders []func() string
 	for i, v := range vs {
 		switch {
 		case ms[i] == "canon":
@@ -220,21 +230,37 @@ func main() {
 			fail(fmt.Errorf("unknown mode %q", ms[i]))
 		}
 		simrt.ResetStats()
-		out, err := generate(*tool, v, *compress, files, inc)
-		r := genResult{Variant: v, Mode: ms[i], OK: err == nil, Bytes: len(out), Dev: len(simrt.Main().Deviated)}
+		render, err := generate(*tool, v, *compress, files, inc)
+		r := genResult{Variant: v, Mode: ms[i], OK: err == nil, Dev: len(simrt.Main().Deviated)}
 		if err != nil {
 			r.Err = err.Error()
 			if len(r.Err) > 300 {
 				r.Err = r.Err[:300]
 			}
 			os.WriteFile(filepath.Join(*outdir, fmt.Sprintf("%d.err", i)), []byte(err.Error()), 0o644)
+			renders = append(renders, nil)
 		} else {
+			out := render()
+			r.Bytes = len(out)
 			r.SHA = fmt.Sprintf("%x", sha256.Sum256([]byte(out)))
 			if err := os.WriteFile(filepath.Join(*outdir, fmt.Sprintf("%d.txt", i)), []byte(out), 0o644); err != nil {
 				fail(err)
 			}
+			renders = append(renders, render)
 		}
 		res = append(res, r)
+	}
+	// the caller still holds every generation's result: render them again now that all
+	// generations have run
+	simrt.Configure(simrt.MapCanon, 0, nil)
+	for i, render := range renders {
+		if render == nil {
+			continue
+		}
+		if again := render(); fmt.Sprintf("%x", sha256.Sum256([]byte(again))) != res[i].SHA {
+			res[i].ChangedLater = true
+			os.WriteFile(filepath.Join(*outdir, fmt.Sprintf("%d.later.txt", i)), []byte(again), 0o644)
+		}
 	}
 	emit(map[string]any{"tool": *tool, "compress": *compress, "gens": res})
 }
